@@ -138,3 +138,137 @@ Proof.
         (conj (fun n g2 hs om n' hs' => proj1 (leak_sign_reject2_ctest n g2 hs om n' hs')) leak_half_byte_ctest)))))))))))))))))))))))))))))))).
 Qed.
 Print Assumptions kernel_traces_are_secret_independent.
+
+(* ---- the release-semantics value of a kernel is the checked model's value whenever the checked model returns one
+   (so the leakage model describes the same computation the refinement theorems are about) ---- *)
+Lemma bind_Ok_inv {A B} (m : res A) (f : A -> res B) z : bind m f = Ok z -> exists a, m = Ok a /\ f a = Ok z.
+Proof. destruct m; cbn; try discriminate. intros H. eexists. split; [reflexivity|exact H]. Qed.
+Lemma chk32_Ok_inv s e z : chk32 s e = Ok z -> z = e /\ wrap32 e = e.
+Proof.
+  unfold chk32. destruct (in_i32 e) eqn:E; [|discriminate]. intros [= <-]. split; [reflexivity|].
+  apply wrap32_id. unfold in_i32 in E. apply andb_true_iff in E. destruct E as [E1 E2]. apply Z.leb_le in E1, E2. lia.
+Qed.
+Lemma chk64_Ok_inv s e z : chk64 s e = Ok z -> z = e /\ wrap64 e = e.
+Proof.
+  unfold chk64. destruct (in_i64 e) eqn:E; [|discriminate]. intros [= <-]. split; [reflexivity|].
+  apply wrap64_id. unfold in_i64 in E. apply andb_true_iff in E. destruct E as [E1 E2]. apply Z.leb_le in E1, E2. lia.
+Qed.
+
+(* one inversion step on H : bind m f = Ok z *)
+Ltac inv1 H :=
+  apply bind_Ok_inv in H;
+  let a := fresh "a" in let Ha := fresh "Ha" in
+  destruct H as (a & Ha & H);
+  first [ apply chk32_Ok_inv in Ha; destruct Ha as [-> Ha]
+        | apply chk64_Ok_inv in Ha; destruct Ha as [-> Ha]
+        | match type of a with unit => destruct a; clear Ha end      (* a guard *)
+        | idtac ].
+Ltac unwrap := repeat match reverse goal with Hw : wrap32 ?e = ?e |- _ => progress rewrite !Hw
+                                             | Hw : wrap64 ?e = ?e |- _ => progress rewrite !Hw end.
+
+Ltac inv_all H := repeat (match type of H with bind _ _ = Ok _ => inv1 H end).
+Lemma Ok_inj {A} (a b : A) : @Ok A a = Ok b -> a = b.
+Proof. intros [= E]. exact E. Qed.
+Ltac rel_straight k r := let H := fresh "H" in
+  intros H; cbv beta zeta delta [k] in H; inv_all H; apply Ok_inj in H; subst; cbv beta zeta delta [r]; unwrap; reflexivity.
+
+Lemma rel_partial_reduce64 a z : k_partial_reduce64 a = Ok z -> r_partial_reduce64 a = (z, []).
+Proof. rel_straight k_partial_reduce64 r_partial_reduce64. Qed.
+Lemma rel_partial_reduce32 a z : k_partial_reduce32 a = Ok z -> r_partial_reduce32 a = (z, []).
+Proof. rel_straight k_partial_reduce32 r_partial_reduce32. Qed.
+Lemma rel_mont_reduce a z : k_mont_reduce a = Ok z -> r_mont_reduce a = (z, []).
+Proof. rel_straight k_mont_reduce r_mont_reduce. Qed.
+Lemma rel_full_reduce32 a z : k_full_reduce32 a = Ok z -> r_full_reduce32 a = (z, []).
+Proof.
+  intros H. cbv beta zeta delta [k_full_reduce32] in H. inv_all H. apply Ok_inj in H. subst.
+  cbv beta zeta delta [r_full_reduce32].
+  match goal with Hc : k_partial_reduce32 _ = Ok _ |- _ => rewrite (rel_partial_reduce32 _ _ Hc) end.
+  cbv beta iota zeta. unwrap. reflexivity.
+Qed.
+Lemma rel_center_mod a z : k_center_mod a = Ok z -> r_center_mod a = (z, []).
+Proof.
+  intros H. cbv beta zeta delta [k_center_mod] in H. inv_all H. apply Ok_inj in H. subst.
+  cbv beta zeta delta [r_center_mod].
+  match goal with Hc : k_full_reduce32 _ = Ok _ |- _ => rewrite (rel_full_reduce32 _ _ Hc) end.
+  cbv beta iota zeta. unwrap. reflexivity.
+Qed.
+Lemma rel_decompose g r z : k_decompose g r = Ok z -> r_decompose g r = (z, [Z.land g 131072 =? 0]).
+Proof.
+  intros H. cbv beta zeta delta [k_decompose] in H. inv1 H. inv1 H.
+  cbv beta zeta delta [r_decompose].
+  match goal with Hc : k_full_reduce32 _ = Ok _ |- _ => rewrite (rel_full_reduce32 _ _ Hc) end.
+  cbv beta iota zeta. cbn [app].
+  match goal with Hb : (if _ then _ else _) = Ok _ |- _ => rename Hb into Hbr end.
+  destruct (Z.land g 131072 =? 0).
+  - inv_all Hbr. apply Ok_inj in Hbr. subst. inv_all H. apply Ok_inj in H. subst. unwrap. reflexivity.
+  - inv_all Hbr. apply Ok_inj in Hbr. subst. inv_all H. apply Ok_inj in H. subst. unwrap. reflexivity.
+Qed.
+Ltac use_rel lem := match goal with Hc : _ = Ok _ |- _ => first [rewrite (lem _ _ Hc) | rewrite (lem _ _ _ Hc)]; clear Hc end.
+Lemma rel_high_bits g r z : k_high_bits g r = Ok z -> r_high_bits g r = (z, [Z.land g 131072 =? 0]).
+Proof.
+  intros H. cbv beta zeta delta [k_high_bits] in H. inv1 H. cbv beta zeta delta [r_high_bits]. use_rel rel_decompose.
+  destruct a as [r1 r0]. apply Ok_inj in H. subst. reflexivity.
+Qed.
+Lemma rel_low_bits g r z : k_low_bits g r = Ok z -> r_low_bits g r = (z, [Z.land g 131072 =? 0]).
+Proof.
+  intros H. cbv beta zeta delta [k_low_bits] in H. inv1 H. cbv beta zeta delta [r_low_bits]. use_rel rel_decompose.
+  destruct a as [r1 r0]. apply Ok_inj in H. subst. reflexivity.
+Qed.
+Lemma rel_make_hint g z r b : k_make_hint g z r = Ok b -> r_make_hint g z r = (b, [Z.land g 131072 =? 0; Z.land g 131072 =? 0]).
+Proof.
+  intros H. cbv beta zeta delta [k_make_hint] in H. inv1 H. inv1 H. inv1 H. apply Ok_inj in H. subst.
+  cbv beta zeta delta [r_make_hint].
+  match goal with H1 : k_high_bits g r = Ok _, H2 : k_high_bits g (r + z) = Ok _ |- _ =>
+    rewrite (rel_high_bits _ _ _ H1); unwrap; rewrite (rel_high_bits _ _ _ H2) end.
+  reflexivity.
+Qed.
+(* per-coefficient closures of sign_internal *)
+Lemma rel_sign_z a b z : k_sign_z a b = Ok z -> r_sign_z a b = (z, []).
+Proof.
+  intros H. cbv beta zeta delta [k_sign_z] in H. inv1 H. cbv beta zeta delta [r_sign_z]. unwrap. use_rel rel_partial_reduce32. reflexivity.
+Qed.
+Lemma rel_sign_r0 g a b z : k_sign_r0 g a b = Ok z -> r_sign_r0 g a b = (z, [Z.land g 131072 =? 0]).
+Proof.
+  intros H. cbv beta zeta delta [k_sign_r0] in H. inv1 H. inv1 H. cbv beta zeta delta [r_sign_r0]. unwrap.
+  match goal with H1 : k_partial_reduce32 _ = Ok _ |- _ => rewrite (rel_partial_reduce32 _ _ H1) end.
+  cbv beta iota zeta. rewrite (rel_low_bits _ _ _ H). reflexivity.
+Qed.
+Lemma rel_mul_mont a b z : k_sign_cs1_hat a b = Ok z -> r_sign_cs1_hat a b = (z, []).
+Proof.
+  intros H. cbv beta zeta delta [k_sign_cs1_hat] in H. inv1 H. cbv beta zeta delta [r_sign_cs1_hat]. unwrap. rewrite (rel_mont_reduce _ _ H). reflexivity.
+Qed.
+Lemma rel_ntt_butterfly zeta hi lo z : k_ntt_butterfly zeta hi lo = Ok z -> r_ntt_butterfly zeta hi lo = (z, []).
+Proof.
+  intros H. cbv beta zeta delta [k_ntt_butterfly] in H. inv1 H. inv1 H. inv1 H. inv1 H. apply Ok_inj in H. subst.
+  cbv beta zeta delta [r_ntt_butterfly]. unwrap.
+  match goal with H1 : k_mont_reduce _ = Ok _ |- _ => rewrite (rel_mont_reduce _ _ H1) end. cbv beta iota zeta. unwrap. reflexivity.
+Qed.
+Lemma rel_inv_butterfly lo hi nz z : k_inv_butterfly lo hi nz = Ok z -> r_inv_butterfly lo hi nz = (z, []).
+Proof.
+  intros H. cbv beta zeta delta [k_inv_butterfly] in H. inv1 H. inv1 H. inv1 H. inv1 H. apply Ok_inj in H. subst.
+  cbv beta zeta delta [r_inv_butterfly]. unwrap.
+  match goal with H1 : k_mont_reduce _ = Ok _ |- _ => rewrite (rel_mont_reduce _ _ H1) end. reflexivity.
+Qed.
+
+Theorem release_values_agree :
+  (forall a z, k_partial_reduce64 a = Ok z -> fst (r_partial_reduce64 a) = z) /\
+  (forall a z, k_partial_reduce32 a = Ok z -> fst (r_partial_reduce32 a) = z) /\
+  (forall a z, k_full_reduce32 a = Ok z -> fst (r_full_reduce32 a) = z) /\
+  (forall a z, k_center_mod a = Ok z -> fst (r_center_mod a) = z) /\
+  (forall a z, k_mont_reduce a = Ok z -> fst (r_mont_reduce a) = z) /\
+  (forall g r z, k_decompose g r = Ok z -> fst (r_decompose g r) = z) /\
+  (forall g z r b, k_make_hint g z r = Ok b -> fst (r_make_hint g z r) = b) /\
+  (forall a b z, k_sign_z a b = Ok z -> fst (r_sign_z a b) = z) /\
+  (forall g a b z, k_sign_r0 g a b = Ok z -> fst (r_sign_r0 g a b) = z) /\
+  (forall zeta hi lo z, k_ntt_butterfly zeta hi lo = Ok z -> fst (r_ntt_butterfly zeta hi lo) = z) /\
+  (forall lo hi nz z, k_inv_butterfly lo hi nz = Ok z -> fst (r_inv_butterfly lo hi nz) = z).
+Proof.
+  repeat apply conj; intros.
+  - rewrite (rel_partial_reduce64 _ _ H). reflexivity. - rewrite (rel_partial_reduce32 _ _ H). reflexivity.
+  - rewrite (rel_full_reduce32 _ _ H). reflexivity. - rewrite (rel_center_mod _ _ H). reflexivity.
+  - rewrite (rel_mont_reduce _ _ H). reflexivity. - rewrite (rel_decompose _ _ _ H). reflexivity.
+  - rewrite (rel_make_hint _ _ _ _ H). reflexivity. - rewrite (rel_sign_z _ _ _ H). reflexivity.
+  - rewrite (rel_sign_r0 _ _ _ _ H). reflexivity. - rewrite (rel_ntt_butterfly _ _ _ _ H). reflexivity.
+  - rewrite (rel_inv_butterfly _ _ _ _ H). reflexivity.
+Qed.
+Print Assumptions release_values_agree.
